@@ -44,7 +44,8 @@ def main(tier, seed):
         trace_module="MediaListTrace", adapter="adapters.medialist", sig=sig, corrupt=corrupt,
         variants=[{"owner": "none", "mode": "raise"}, {"owner": "media", "mode": "raise"}, {"owner": "import", "mode": "raise"},
                   {"owner": "none", "mode": "log"}, {"owner": "media", "mode": "log"}, {"owner": "import", "mode": "log"}, {"owner": "none", "mode": "raise"},
-                  {"owner": "import-reassigned", "mode": "raise"}, {"owner": "media-reassigned", "mode": "raise"}],
+                  {"owner": "import-reassigned", "mode": "raise"}, {"owner": "media-reassigned", "mode": "raise"},
+                  {"owner": "media", "mode": "raise", "viaquery": True}, {"owner": "none", "mode": "raise", "viaquery": True}],
         tour_cap=30000 if q else 150000, n_walks=300 if q else 3000, walk_len=25 if q else 40, nontrivial=nontrivial,
         rule="transition tour: every reachable canonical list (TLC BFS, with/without leading comment) x every action "
              "(mediaText assignment of 0-3 queries incl. malformed ones, appendMedium, deleteMedium, item assignment), on a "
